@@ -36,14 +36,20 @@ for b in blocks:
         # duplicate the SyncWriter spec helpers for the async Writer
         m = re.search(r'    /// a streaming writer:.*?(?=\n  item_extra )', b, re.S)
         helpers = tr(m.group(0))
+        mw = re.search(r'    pub open spec fn asw_wf\(s: Writer, w: World\) -> bool \{.*?\n    \}\n', helpers, re.S)
+        mid = (mw.group(0).replace('asw_wf(s: Writer, w: World)', 'asw_mid(s: Writer, w: World, buf: Seq<u8>)')
+               .replace('crate::content::write::aw_wf(s.writer, w)', 'crate::content::write::aw_mid(s.writer, w, buf)'))
+        helpers += '    /// the same while a write of `buf` is in flight in the content writer\n' + mid
         out.append('file put.rs\n  keep Writer\n  extra\n' + helpers + '''
   item_extra impl:AsyncWrite for Writer
     open spec fn wr_inv(&self, w: World) -> bool { asw_wf(*self, w) }
+    open spec fn wr_mid(&self, w: World, buf: Seq<u8>) -> bool { asw_mid(*self, w, buf) }
     open spec fn wr_sink(&self, w: World) -> Seq<u8> { self.writer@.fed }
     open spec fn wr_step(pre_s: Self, pre: World, post_s: Self, post: World) -> bool {
         &&& crate::content::write::aw_step(pre_s.writer, pre, post_s.writer, post)
         &&& post_s.cache@ == pre_s.cache@ && post_s.key == pre_s.key && post_s.opts == pre_s.opts
     }
+    open spec fn wr_frame(pre_s: Self, pre: World, post: World) -> bool { crate::content::write::aw_frame(pre_s.writer@.tmp, pre, post) }
     proof fn wr_step_refl(s: Self, w: World) { }
     proof fn wr_step_trans(a: Self, wa: World, b: Self, wb: World, c: Self, wc: World) {
         assert forall|i: int| wa.hist.len() <= i < wc.hist.len() implies same_except(wa.fs, #[trigger] wc.hist[i], a.writer@.tmp) && wc.hist[i].dirs == wa.fs.dirs by {
